@@ -398,6 +398,12 @@ def Addr.Valid : Addr → Prop
   | .domain n => 1 ≤ n.length ∧ n.length ≤ 255
   | .v6 raw => raw.length = 16
 
+/-- the ATYP byte -/
+def Addr.atyp : Addr → UInt8
+  | .v4 _ _ _ _ => cAtypIPv4
+  | .domain _ => cAtypDomainName
+  | .v6 _ => cAtypIPv6
+
 def Addr.wire : Addr → Bytes
   | .v4 a b c d => [cAtypIPv4, a, b, c, d]
   | .domain n => [cAtypDomainName, UInt8.ofNat n.length] ++ n
